@@ -7,6 +7,7 @@ Both run on a two-core buffer machine (z3 arrays for contents, symbolic tile off
 
 from __future__ import annotations
 
+import itertools
 import random
 
 import z3
@@ -411,6 +412,23 @@ def run(chk):
                        "stage operations are elementwise (uninterpreted function per operation); tile size 8, buffers of 64 elements",
                        "assignments that pipeline-duplicate-buffers declines with NotImplementedError are counted as rejected inputs"]
     cases = [gen_case(rnd) for _ in range(160 if quick else 2000)]
+    # fixed shapes, independent of the seed: a buffer that skips a stage (written in stage k, read in stage k+2), a
+    # buffer read one stage before it is written (feedback), and the plain chain - each with constant trip counts
+    # 0..5 and a run-time upper bound
+    tag = itertools.count(1)
+    fixed = {
+        "skip3": (3, ("%t0", "%t1"), ((("copy", "%sa", "%t0", next(tag)),), (("copy", "%sc", "%t1", next(tag)),), (("gen", "%t0", "%t1", "%sb", next(tag)),))),
+        "skip4": (4, ("%t0", "%t1", "%t2"), ((("copy", "%sa", "%t0", next(tag)), ("copy", "%sc", "%t1", next(tag))), (("gen", "%t0", "%t0", "%t2", next(tag)),),
+                                             (("gen", "%t2", "%t1", "%t0", next(tag)),), (("copy", "%t0", "%sb", next(tag)),))),
+        "skip3b": (3, ("%t0", "%t1"), ((("copy", "%sa", "%t0", next(tag)),), (("gen", "%sc", "%sc", "%t1", next(tag)),), (("gen", "%t1", "%t0", "%sb", next(tag)),))),
+        "feedback2": (2, ("%t0",), ((("copy", "%t0", "%sb", next(tag)),), (("gen", "%sa", "%sc", "%t0", next(tag)),))),
+        "feedback3": (3, ("%t0", "%t1"), ((("copy", "%t0", "%sb", next(tag)),), (("gen", "%t1", "%sc", "%t0", next(tag)),), (("gen", "%sa", "%sc", "%t1", next(tag)),))),
+        "chain3": (3, ("%t0", "%t1"), ((("copy", "%sa", "%t0", next(tag)),), (("gen", "%t0", "%sc", "%t1", next(tag)),), (("copy", "%t1", "%sb", next(tag)),))),
+    }
+    for nm, (S_, tiles_, stages_) in fixed.items():
+        for loop in [("const", 0, n_, 1) for n_ in range(0, 6)] + [("sym_ub",)]:
+            for tk in ("alloc", "view") if nm in ("skip3", "feedback2", "chain3") else ("alloc",):
+                cases.append((S_, tiles_, stages_, loop, NT, tk))
     chk.add_results("pipelines", pmap(case_pipe, cases, chunks=4))
     chk.bounds = dict(programs=len(cases), stages="2..4", ops_per_stage="1..2", trip_counts="0..6 (unrolling bound)", tile=NT, buffer=NBIG)
     chk.outside = ["streaming regions as stage operations", "trip counts above 6", "nested loops (the pass declines them)", "insert-sync-barrier / dispatch-regions after unrolling (C13, C14)"]
